@@ -123,6 +123,10 @@ def build(race=False, tags=""):
     cdir = os.path.join(VERIF, ".work", "build-" + key)
     binp = os.path.join(cdir, "sodh")
     if os.path.exists(binp):
+        try:
+            os.utime(cdir)        # in use: keeps it out of the pruning below
+        except OSError:
+            pass
         return binp
     rw = build_rewriter()
     tmp = tempfile.mkdtemp(prefix="verif-build-", dir=SHM)
@@ -140,17 +144,24 @@ def build(race=False, tags=""):
         p = sh(cmd, cwd=hd, env=GOENV, check=False)
         if p.returncode != 0:
             raise Inconclusive("scratch copy of /repo does not build:\n" + p.stdout[-6000:])
-        os.makedirs(cdir, exist_ok=True)
+        os.makedirs(os.path.dirname(cdir), exist_ok=True)
         # the rewritten source is kept next to the binary: the lock-fact extractor reads it, so that
-        # the call sites it reports are those of the running binary
-        if os.path.isdir(os.path.join(cdir, "sod")):
-            shutil.rmtree(os.path.join(cdir, "sod"))
-        shutil.copytree(os.path.join(tmp, "sod"), os.path.join(cdir, "sod"))
-        shutil.copy(os.path.join(tmp, "sodh"), binp)
-        # prune old builds
+        # the call sites it reports are those of the running binary.  Published atomically (several checks may run at once).
+        stage = tempfile.mkdtemp(prefix="stage-", dir=os.path.dirname(cdir))
+        shutil.copytree(os.path.join(tmp, "sod"), os.path.join(stage, "sod"))
+        shutil.copy(os.path.join(tmp, "sodh"), os.path.join(stage, "sodh"))
+        try:
+            os.rename(stage, cdir)
+        except OSError:
+            shutil.rmtree(stage, ignore_errors=True)      # another process published the same build first
+        # prune builds that have not been used for two hours (never the 8 most recent ones)
         builds = sorted(glob.glob(os.path.join(VERIF, ".work", "build-*")), key=os.path.getmtime)
-        for b in builds[:-6]:
-            shutil.rmtree(b, ignore_errors=True)
+        for b in builds[:-8]:
+            if time.time() - os.path.getmtime(b) > 7200:
+                shutil.rmtree(b, ignore_errors=True)
+        for b in glob.glob(os.path.join(VERIF, ".work", "stage-*")):
+            if time.time() - os.path.getmtime(b) > 7200:
+                shutil.rmtree(b, ignore_errors=True)
     finally:
         shutil.rmtree(tmp, ignore_errors=True)
     return binp
